@@ -132,7 +132,7 @@ Ltac finish_post :=
   repeat split; reflexivity.
 
 Ltac solve_post :=
-  unfold post; cb; use_hyps; rewrite ?Z.eqb_refl, ?zlist_eqb_refl; cb; split_ifs2; finish_post.
+  unfold post, law_step; lazy beta iota zeta delta [plain sval nth nth_error fst snd tv snap_of]; use_hyps; cb; use_hyps; rewrite ?Z.eqb_refl, ?zlist_eqb_refl; cb; split_ifs2; finish_post.
 
 Ltac values va vb :=
   let s0 := fresh "s0" in let s1 := fresh "s1" in let l0 := fresh "l0" in let l1 := fresh "l1" in
